@@ -2,7 +2,7 @@
 // One case per input line, fields separated by one space, strings as hex UTF-16 code units
 // (4 hex digits per unit, "-" = empty (non-null) string, "~" = null pointer for category/file/function
 // and a null QString for the message):
-//   pat type msg cat file fn line nattr (key tval)* ntf (timefmt)* [prefmt twice [seq]]
+//   pat type msg cat file fn line nattr (key tval)* ntf (timefmt)* [prefmt twice [seq [gap delay again]]]
 //   prefmt = ~ (none) or the text given to setFormattedMessage() BEFORE format() is called (another formatter ran first);
 //   twice = 1: the formatter is first run through Formatter::process() on the message, then format() is observed.
 //   %{message} is the raw message text in every case.
@@ -10,6 +10,16 @@
 //   0 = a new object is constructed from pat and kept; k > 0 = the object kept from the previous lines is used
 //   (its pattern must be pat; otherwise the line is answered with "!protocol").  Without the field every case
 //   gets its own formatter object, as before.
+//   (seq = -1: not part of a sequence, own formatter object; only there so that the timing fields can follow.)
+//   TIMING fields (all in milliseconds, 0 = nothing):
+//   gap   = sleep BEFORE the LogMessage is constructed (its time stamps are taken by its constructor): consecutive
+//           messages of a sequence get time stamps a few milliseconds apart inside one clock second;
+//           gap = -1: wait until the wall clock has entered the NEXT second, then construct (second boundary crossed).
+//   delay = sleep between the construction of the message and the observed format() call (the message waits in a
+//           queue): every time text must still be that of the message's own time stamps, not of "now".
+//   again = after the observed call: sleep, then format the SAME LogMessage again with the same formatter object;
+//           the text may not change (output group, see below).  With the timing fields present the second call is
+//           always made (again = 0: immediately).
 //   tval = s<hex> (QString; s~ = null QString, s- = empty) | i<decimal> (int / qlonglong) | b0 | b1 (bool)
 //
 // default mode, output line:
@@ -19,8 +29,21 @@
 // With a seq field one more group follows at the end of the line: "=" when a FRESH PatternFormatter(pat) gives, for
 // the very same LogMessage object, the same text and the same null-ness as the kept object did, else "#<hex>" or
 // "#<hex>/null" = what the fresh object gave (format is a function of pattern and message: they may never differ).
+// With the timing fields one more group follows: "=" when the second format() call on the same object and the same
+// LogMessage (after `again` ms) returned the same text and null-ness as the first, else "#<hex>[/null]" = what it returned.
+// (The fresh-object comparison is made after that sleep as well.)
 // The last three groups are the environment the model takes as given (thread id, function-name
 // clean-up = C14, QDateTime::toString / process- and boot-relative seconds).
+// The time environment is computed WITHOUT the object under test and from the message's own time stamps:
+//   custom formats / ISO: lmsg.time().toString(...) called here;
+//   boot:    whole milliseconds of lmsg.steadyTime().time_since_epoch() printed as S.mmm with integer arithmetic;
+//   process: the library's process-start instant is a file-static.  It is bracketed instead: every rendering p of
+//            %{time process} (by a separate PatternFormatter, made at the END of the case, i.e. after delay+again)
+//            for a message with steady time t confines it to (t-(p+1)ms, t-p ms]; three calibration messages are
+//            rendered immediately after construction at start-up.  A rendering that is inside the bracket is
+//            passed on (and narrows it); one that is not - the text does not belong to lmsg.steadyTime() - is
+//            replaced by the value computed from the middle of the bracket, so that the model predicts the text of
+//            the message's own time stamp and the oracle rejects the formatter's.
 //
 // mode "threads K ROUNDS MAXMS": all cases are read first; case i belongs to thread i mod K.  Every thread has
 // its OWN PatternFormatter and LogMessage objects (nothing shared at API level, no Logger mutex).  The
@@ -33,6 +56,7 @@
 #else
 #include "qtlogger/qtlogger.h"
 #endif
+#include <algorithm>
 #include <atomic>
 #include <chrono>
 #include <iostream>
@@ -68,25 +92,54 @@ struct Case
     std::vector<QString> tfs;
     bool twice = false;         // run the formatter through Formatter::process() once before the observed format() call
     long seq = -1;              // >= 0: position in a sequence of messages formatted by one kept formatter object
+    bool timing = false;        // the timing fields are present (two more output groups)
+    long gap = 0, delay = 0, again = 0;
     // threads mode
     std::unique_ptr<PatternFormatter> pf;
     QString expected, firstBad;
     long calls = 0, bad = 0;
 };
-static void parse(const std::string &line, Case &k)
+static void sleepMs(long ms)
 {
-    std::istringstream is(line);
-    std::string pat, msg, cat, file, fn;
-    int type = 0, ln = 0, nattr = 0, ntf = 0;
-    is >> pat >> type >> msg >> cat >> file >> fn >> ln >> nattr;
+    if (ms > 0) std::this_thread::sleep_for(std::chrono::milliseconds(ms));
+}
+static void parse(const std::string &line, Case &k, bool honourGap = false)
+{
+    std::vector<std::string> f;
+    { std::istringstream is(line); std::string t; while (is >> t) f.push_back(t); }
+    size_t i = 0;
+    auto nxt = [&]() -> std::string { return i < f.size() ? f[i++] : std::string(); };
+    auto num = [&]() -> long { std::string t = nxt(); return t.empty() ? 0 : std::stol(t); };
+    const std::string pat = nxt();
+    const int type = int(num());
+    const std::string msg = nxt(), cat = nxt(), file = nxt(), fn = nxt();
+    const int ln = int(num());
+    const int nattr = int(num());
+    std::vector<std::pair<std::string, std::string>> attrs;
+    for (int a = 0; a < nattr; a++) { std::string key = nxt(), v = nxt(); attrs.emplace_back(key, v); }
+    const int ntf = int(num());
+    for (int a = 0; a < ntf; a++) k.tfs.push_back(unhex(nxt()));
+    // optional: the message already carries formatter output / is formatted twice in a row / sequence / timing
+    std::string pre = "~", twice = "0";
+    if (i + 1 < f.size()) {
+        pre = nxt(); twice = nxt();
+        if (i < f.size()) k.seq = num();
+        if (i + 2 < f.size()) { k.timing = true; k.gap = num(); k.delay = num(); k.again = num(); }
+    }
+    if (honourGap) {
+        if (k.gap > 0) sleepMs(k.gap);
+        else if (k.gap == -1) {
+            const qint64 s0 = QDateTime::currentMSecsSinceEpoch() / 1000;
+            while (QDateTime::currentMSecsSinceEpoch() / 1000 == s0) sleepMs(1);
+        }
+    }
     k.pat = unhex(pat);
     k.c = unhex(cat).toLatin1(); k.f = unhex(file).toLatin1(); k.fu = unhex(fn).toLatin1();
     QMessageLogContext ctx(file == "~" ? nullptr : k.f.constData(), ln, fn == "~" ? nullptr : k.fu.constData(),
                            cat == "~" ? nullptr : k.c.constData());
     k.m.reset(new LogMessage(QtMsgType(type), ctx, unhex(msg)));
-    for (int i = 0; i < nattr; i++) {
-        std::string key, v;
-        is >> key >> v;
+    for (const auto &kv : attrs) {
+        const std::string &key = kv.first, &v = kv.second;
         if (v.empty()) continue;
         if (v[0] == 's') k.m->setAttribute(unhex(key), unhex(v.substr(1)));
         else if (v[0] == 'i') {
@@ -94,15 +147,59 @@ static void parse(const std::string &line, Case &k)
             if (x >= INT_MIN && x <= INT_MAX) k.m->setAttribute(unhex(key), int(x)); else k.m->setAttribute(unhex(key), x);
         } else k.m->setAttribute(unhex(key), v == "b1");
     }
-    is >> ntf;
-    for (int i = 0; i < ntf; i++) { std::string t; is >> t; k.tfs.push_back(unhex(t)); }
-    // optional: the message already carries formatter output / is formatted twice in a row
-    std::string pre, twice;
-    if (is >> pre >> twice) {
-        if (pre != "~") k.m->setFormattedMessage(unhex(pre));
-        k.twice = (twice == "1");
-        std::string seq;
-        if (is >> seq) k.seq = std::stol(seq);
+    if (pre != "~") k.m->setFormattedMessage(unhex(pre));
+    k.twice = (twice == "1");
+}
+// ---- the time environment, computed from the message's own time stamps (see the header comment) ----
+typedef long long ns_t;
+static ns_t steadyNs(const LogMessage &m)
+{
+    return std::chrono::duration_cast<std::chrono::nanoseconds>(m.steadyTime().time_since_epoch()).count();
+}
+static QString secsText(long long ms)      // S.mmm, integer arithmetic only
+{
+    const bool neg = ms < 0;
+    if (neg) ms = -ms;
+    return (neg ? QStringLiteral("-") : QString()) + QString::number(ms / 1000) + QLatin1Char('.')
+            + QString::number(ms % 1000).rightJustified(3, QLatin1Char('0'));
+}
+static bool parseSecs(const QString &s, long long &ms)     // the inverse; false if s is not of the form [-]S.mmm
+{
+    const int dot = s.indexOf(QLatin1Char('.'));
+    if (dot <= 0 || s.size() - dot - 1 != 3) return false;
+    bool ok1 = false, ok2 = false;
+    const long long a = s.left(dot).toLongLong(&ok1);
+    const long long b = s.mid(dot + 1).toLongLong(&ok2);
+    if (!ok1 || !ok2 || b < 0) return false;
+    ms = (s.startsWith(QLatin1Char('-')) ? -1 : 1) * ((a < 0 ? -a : a) * 1000 + b);
+    return secsText(ms) == s;
+}
+static QString bootEnv(const LogMessage &m)
+{
+    return secsText(steadyNs(m) / 1000000);      // whole milliseconds (truncated, as duration_cast does), printed as S.mmm
+}
+static ns_t g_startLo = 0, g_startHi = 0;     // bracket of the library's process-start instant (steady clock, ns)
+static long g_processInconsistent = 0;
+static QString processEnv(const LogMessage &m, const QString &rendered)
+{
+    const ns_t t = steadyNs(m);
+    long long p = 0;
+    if (parseSecs(rendered, p)) {
+        const ns_t lo = t - (p + 1) * 1000000LL + 1, hi = t - p * 1000000LL;     // p = floor((t - start) / 1 ms)
+        const ns_t nlo = std::max(lo, g_startLo), nhi = std::min(hi, g_startHi);
+        if (nlo <= nhi) { g_startLo = nlo; g_startHi = nhi; return rendered; }
+    }
+    g_processInconsistent++;
+    const ns_t mid = g_startLo + (g_startHi - g_startLo) / 2;
+    const ns_t d = t - mid;
+    return secsText(d >= 0 ? d / 1000000 : -((-d + 999999) / 1000000));
+}
+static void calibrateProcessStart(ns_t mainStart)
+{
+    g_startLo = 0; g_startHi = mainStart;      // the static initialiser of the library ran before main()
+    for (int i = 0; i < 3; i++) {
+        LogMessage cm(QtDebugMsg, QMessageLogContext(), QStringLiteral("calibration"));
+        (void)processEnv(cm, PatternFormatter(QStringLiteral("%{time process}")).format(cm));
     }
 }
 static int threadsMode(int K, long rounds, long maxms)
@@ -146,15 +243,17 @@ static int threadsMode(int K, long rounds, long maxms)
 }
 int main(int argc, char **argv)
 {
+    const ns_t mainStart = std::chrono::duration_cast<std::chrono::nanoseconds>(std::chrono::steady_clock::now().time_since_epoch()).count();
     std::ios::sync_with_stdio(false);
     if (argc >= 5 && std::string(argv[1]) == "threads")
         return threadsMode(std::stoi(argv[2]), std::stol(argv[3]), std::stol(argv[4]));
     std::string line;
     std::unique_ptr<PatternFormatter> kept;     // the formatter object of the sequence in progress
     QString keptPat;
+    calibrateProcessStart(mainStart);
     while (std::getline(std::cin, line)) {
         Case k;
-        parse(line, k);
+        parse(line, k, true);
         LogMessage &m = *k.m;
         std::ostringstream o;
         try {
@@ -169,24 +268,36 @@ int main(int argc, char **argv)
             else if (k.seq == 0) { kept.reset(new PatternFormatter(k.pat)); keptPat = k.pat; }
             else if (!kept || keptPat != k.pat) throw std::runtime_error("protocol: no kept formatter object with this pattern");
             PatternFormatter &pf = own ? *own : *kept;
+            sleepMs(k.delay);             // the message waits (in a queue, say) before it is formatted
             if (k.twice) pf.process(m);   // = m.setFormattedMessage(pf.format(m)): the message now carries formatter output
             const QString res = pf.format(m);
+            QString res2, fres;
+            if (k.timing) {
+                sleepMs(k.again);
+                res2 = pf.format(m);      // the same object, the same LogMessage, later
+            }
+            if (k.timing || k.seq >= 0) fres = PatternFormatter(k.pat).format(m);
             o << hex(res) << ' ' << (res.isNull() ? 'N' : 'V') << ' ' << m.threadId() << ' ' << qulonglong(m.qthreadptr()) << ' '
               << hex(PatternFormatter(QStringLiteral("%{func}")).format(m));
             for (const QString &t : k.tfs) {
                 QString r;
-                if (t == QLatin1String("process") || t == QLatin1String("boot"))
-                    r = PatternFormatter(QStringLiteral("%{time ") + t + QStringLiteral("}")).format(m);
+                if (t == QLatin1String("process"))
+                    r = processEnv(m, PatternFormatter(QStringLiteral("%{time process}")).format(m));
+                else if (t == QLatin1String("boot"))
+                    r = bootEnv(m);
                 else if (t.isEmpty())
                     r = m.time().toString(Qt::ISODate);
                 else
                     r = m.time().toString(t);
                 o << ' ' << hex(r);
             }
-            if (k.seq >= 0) {
-                const QString fres = PatternFormatter(k.pat).format(m);
+            if (k.timing || k.seq >= 0) {
                 if (fres == res && fres.isNull() == res.isNull()) o << " =";
                 else o << " #" << hex(fres) << (fres.isNull() ? "/null" : "");
+            }
+            if (k.timing) {
+                if (res2 == res && res2.isNull() == res.isNull()) o << " =";
+                else o << " #" << hex(res2) << (res2.isNull() ? "/null" : "");
             }
         } catch (const std::exception &e) {
             o.str(""); o << "!exception " << e.what();
